@@ -17,14 +17,16 @@ def run(ctx):
     ctx.outside += ["real PYTHONHASHSEED values / OS directory orders (covered through their modelled effect only)", "soups longer than N", "threads"]
     T = 240 if ctx.quick() else 600
     jobs = []
+    iso = []      # isolation conditions: the longest ones in the thorough tier, appended last so the wall budget is spent on the diverse ones first
     N = 2 if ctx.quick() else 3
     for lang in (("Python", "JavaScript", "Java", "C") if ctx.quick() else capture.LANG_NAMES):
         r = xh.call("soup.py", "_alphabet", {"lang": lang}, wall_timeout=120)
         alpha = [w for _t, w in r.get("value", [])]
         # concrete-after-selection and untraced; one condition per class of the soup's first token so the 16 workers share the work
+        NL = N if lang in ("Python", "JavaScript") else 2
         for k in range(len(alpha)):
-            jobs.append(Job("c06.py", "h_isolation", {"which": "isolation", "lang": lang, "N": N, "first": k}, T, 60, tag=f"isolation {lang} N={N} first={alpha[k]!r}", meta={"twin": k == 0, "sigtag": f"isolation:{lang}"}))
-            jobs.append(Job("c06.py", "h_first_file", {"which": "isolation", "lang": lang, "N": N, "first": k}, T, 60, tag=f"soup analysed first in the process {lang} N={N} first={alpha[k]!r}", meta={"twin": False, "sigtag": f"first-file:{lang}"}))
+            iso.append(Job("c06.py", "h_isolation", {"which": "isolation", "lang": lang, "N": NL, "first": k}, T, 60, tag=f"isolation {lang} N={NL} first={alpha[k]!r}", meta={"twin": k == 0, "sigtag": f"isolation:{lang}"}))
+            iso.append(Job("c06.py", "h_first_file", {"which": "isolation", "lang": lang, "N": NL, "first": k}, T, 60, tag=f"soup analysed first in the process {lang} N={NL} first={alpha[k]!r}", meta={"twin": False, "sigtag": f"first-file:{lang}"}))
     for lang in capture.LANG_NAMES:
         r = xh.call("c15.py", "n_automata", {"lang": lang}, wall_timeout=120)
         for i, a in enumerate(r.get("value", [])):
@@ -54,4 +56,4 @@ def run(ctx):
             jobs.append(Job("c11.py", "h_walk_order", {"cfg": c, "fix_f3": f3}, T, 60, tag=f"traversal order cfg{c} file#{f3}", meta={"sigtag": "walk-order", "twin": f3 == 0 and c == 0}))
     ctx.bounds = {"isolation": f"intervening / first file = every token soup of length {N} over the language alphabet in a small layout pool (same or next line, two columns); B = two canonical programs whose results must equal the generator's ground truth", "transition order": "every state of every captured automaton x every permutation of its <= 4 transitions x every token kind x unbounded value/depth",
                   "insertion order": "all 6 permutations of 3 files, values unbounded", "traversal order": "sorted vs reversed / rotated sibling order over the C11 tree family"}
-    ctx.run_xh(jobs)
+    ctx.run_xh(jobs + iso)
